@@ -79,7 +79,10 @@ STRING_PATTERN = rf"(?P<{GROUP_QUOTE}>[\"'])(?P<{GROUP_QUOTED}>.*?)(?P={GROUP_QU
 # Rules for the standard boolean expression.
 # Does not support grouping with parentheses.
 _rules = (
-    (TOKEN_RANGE_LITERAL, r"\((?=.+?\.\.)"),
+    # A left parenthesis starts a range literal if `..` follows before any other
+    # parenthesis, ignoring string literals. Otherwise it is a grouping parenthesis,
+    # even if there is a range literal later in the same expression.
+    (TOKEN_RANGE_LITERAL, r"""\((?=(?:[^()'"]|'[^']*'|"[^"]*")*?\.\.)"""),
     (TOKEN_IDENTINDEX, IDENTINDEX_PATTERN),
     (TOKEN_IDENTSTRING, IDENTSTRING_PATTERN),
     (TOKEN_STRING, STRING_PATTERN),
